@@ -340,13 +340,13 @@ def r2_delegation(rep, ctx):
     cc = m.method("AbstractValueWithQuantityObject", "CreateCopy")
     cres = Resolver(m, cc)
     st = [s for s in own_statements(cc.node) if isinstance(s, ast.Assign) and isinstance(s.targets[0], ast.Name) and s.targets[0].id == "value" and isinstance(s.value, ast.Call)]
-    ok = len(st) == 1 and cres.term(st[0].value) == ("call", ("field", "GetAbstractValue"), (("param", 2, "unit"),), ())
+    ok = len(st) == 1 and cres.term(st[0].value) == ("call", ("field", "GetAbstractValue"), (("param", cc.params.index("unit"), "unit"),), ())
     n += 1
     rep.check(ok, "C02.R2", "CreateCopy:value-in-new-unit", "without an explicit value the copy takes the source's value expressed in the requested unit", "CreateCopy does not take GetAbstractValue(unit) as the value of the copy", fn=cc)
     for c in own_nodes(cc.node):
         if isinstance(c, ast.Call) and isinstance(c.func, ast.Name) and c.func.id == "ObtainQuantity":
             n += 1
-            rep.check(c.args and ast.unparse(c.args[0]) == "unit", "C02.R2", "CreateCopy:%s" % norm(ast.unparse(c)), "the copy's quantity is obtained for the same requested unit", "the copy's quantity is obtained for %s while its value is expressed in `unit`" % (ast.unparse(c.args[0]) if c.args else None), node=c, fn=cc)
+            rep.check(bool(c.args) and cres.term(c.args[0]) == ("param", cc.params.index("unit"), "unit"), "C02.R2", "CreateCopy:%s" % norm(ast.unparse(c)), "the copy's quantity is obtained for the same requested unit", "the copy's quantity is obtained for %s while its value is expressed in `unit`" % (ast.unparse(c.args[0]) if c.args else None), node=c, fn=cc)
     rep.floor("C02.R2", "delegations checked here", n, 6)
     # borrowed: Array.GetAbstractValue, FromScalars, IndexAsScalar/ChangingIndex, ConvertToCurrent
     from . import c10, c11, c17
@@ -389,16 +389,28 @@ def r3_own_unit(rep, ctx):
     from ..facts import facts as nfacts, none_fact
     scfg = CFG(sfn.node)
     ok = False
+    sres = Resolver(m, sfn)
     for r in own_nodes(sfn.node):
-        if isinstance(r, ast.Return) and r.value is not None and ast.unparse(r.value) == "self._value":
+        if isinstance(r, ast.Return) and r.value is not None and sres.term(r.value) == ("field", "_value"):
             for f in nfacts(scfg, scfg.node_of(r)):
                 nf = none_fact(f)
-                if nf and isinstance(nf[0], ast.Name) and nf[0].id == "unit" and nf[1]:
+                if nf and nf[1] and sres.term(nf[0]) == ("param", sfn.params.index("unit"), "unit"):
                     ok = True
     rep.check(ok, "C02.R3", "Scalar.GetAbstractValue:no-unit", "without a unit the stored value is returned", "Scalar.GetAbstractValue() does not return the stored value when no unit is given", fn=sfn)
     # UnitDatabase.Convert: equal composed units return the value
     cv = m.func("UnitDatabase.Convert")
-    ok = any(isinstance(r, ast.Return) and ast.unparse(r.value) == "value" and isinstance(r._parent, ast.If) and ast.unparse(r._parent.test).replace(" ", "") == "from_unit_exps==to_unit_exps" for r in own_nodes(cv.node))
+    ccfg = CFG(cv.node)
+    cres = Resolver(m, cv)
+    P_VALUE = ("param", cv.params.index("value"), "value")
+    ok = False
+    for c in own_nodes(cv.node):
+        if isinstance(c, ast.Call) and isinstance(c.func, ast.Attribute) and c.func.attr == "_ConvertWithExp" and len(c.args) >= 3:
+            sides = {cres.term(c.args[1]), cres.term(c.args[2])}
+            for r in own_nodes(cv.node):
+                if isinstance(r, ast.Return) and r.value is not None and cres.term(r.value) == P_VALUE:
+                    for k, l, r_, pos in nfacts(ccfg, ccfg.node_of(r)):
+                        if k == "eq" and pos and r_ is not None and len(sides) == 2 and {cres.term(l), cres.term(r_)} == sides:
+                            ok = True
     rep.check(ok, "C02.R3", "Convert:equal-composed-units", "equal composed units return the value unchanged", "UnitDatabase.Convert does not return the value for equal composed units", fn=cv)
 
 
